@@ -279,6 +279,20 @@ def check_checksum_long(acc):
 
 
 # --- time helpers ---------------------------------------------------------------------------
+def check_itow_early(start_ms, stop_ms, acc):
+    """The first 18 s of the week (itow < leap offset: the UTC time lies in the previous week).  utc2itow names
+    such an instant (wno-1, itow + one week), so the pair is consistent iff itow2utc gives the same time of day
+    for itow and itow + one week, and that time is 18 s before the week start plus itow ms."""
+    for itow in range(start_ms, stop_ms):
+        acc.evaluations += 1
+        acc.transitions += 2
+        t = H.itow2utc(itow)
+        want = (EPOCH0 + timedelta(milliseconds=itow - 18000)).time()
+        if t != H.itow2utc(itow + WEEK_MS) or t != want:
+            acc.violation("itow2utc_wrong_before_leap_offset", {"sec": "itow_early", "itow": itow}, f"itow2utc({itow}) = {t}, itow2utc({itow + WEEK_MS}) = {H.itow2utc(itow + WEEK_MS)}, want {want}")
+    acc.outcomes[("itow", "early")] += 1
+
+
 def check_itow_range(wno, start_ms, stop_ms, acc):
     base = EPOCH0 + timedelta(weeks=wno)
     for itow in range(start_ms, stop_ms):
@@ -419,6 +433,8 @@ def replay_case(case):
             if len(d) >= 4 and got != want:
                 acc.violation("isvalid_checksum_disagrees", case, "")
                 acc.violation("isvalid_checksum_disagrees|frame", case, "")
+    elif sec == "itow_early":
+        check_itow_early(case["itow"], case["itow"] + 1, acc)
     elif sec == "itow":
         check_itow_range(case["wno"], case["itow"], case["itow"] + 1, acc)
     elif sec == "sphp":
@@ -452,6 +468,8 @@ def eval_block(block, acc):
         check_checksums(tuple(block[1]) if block[1][0] == "short" else ("pre", block[1][1], block[1][2]), acc)
     elif kind == "cksum-long":
         check_checksum_long(acc)
+    elif kind == "itow_early":
+        check_itow_early(block[1], block[2], acc)
     elif kind == "itow":
         check_itow_range(block[1], block[2], block[3], acc)
     elif kind == "sphp":
@@ -493,6 +511,7 @@ def run_tier(tier, t0):
             for a in range(18000, 18000 + 600000, 100000):
                 blocks.append(("itow", wno, a, a + 100000))
         itow_desc = "every millisecond of a whole week (week 2300) and of 10 minutes at weeks 0 and 5000"
+    blocks += [("itow_early", a, a + 3000) for a in range(0, 18000, 3000)]
     acc = engine.sweep(blocks, eval_block)
     engine.finish(
         PROP, tier, acc, t0, replay_case,
@@ -501,7 +520,7 @@ def run_tier(tier, t0):
             + ("" if q else "-2") + "-byte perturbations of all-00/all-ff for wider types, float bit-pattern lattices (all 65,536 high halves), "
             "array patterns; CH strings/bytes up to length 4; refusal of min-1, max+1, wrong type, wrong length; nomval; "
             f"calc_checksum/isvalid_checksum vs reference Fletcher on all byte strings of length<={7 if q else 8} over the 8-symbol alphabet, long inputs and every 1-byte substitution of 2 frames; "
-            f"utc2itow/itow2utc on {itow_desc}; val2sphp lattice; get_bits on all (1-byte, mask) pairs and 2-byte x run masks; protocol on all 65,536 prefixes x 3 tails; att2idx/att2name on every "
+            f"utc2itow/itow2utc on {itow_desc}, itow2utc on every millisecond of the first 18 s of the week; val2sphp lattice; get_bits on all (1-byte, mask) pairs and 2-byte x run masks; protocol on all 65,536 prefixes x 3 tails; att2idx/att2name on every "
             "table name x indices 1..300. states = attribute types covered; distinct_nontrivial = distinct (section, class) outcomes"
         ),
         assumptions=[
